@@ -218,6 +218,16 @@ fn check_badfilter_pair(y: (&str, &str), z: (&str, &str), reqs: &[Req], l: &mut 
             variants.push(vec![base.to_string(), ytxt.clone(), ztxt.clone(), spell(y.0, alias, false)]);
         }
     }
+    // and every list once more with three unrelated `$badfilter` rules around it (the set of
+    // cancelled ids then has several members)
+    let plain = variants.len();
+    for k in 0..plain {
+        let mut v = variants[k].clone();
+        v.insert(1, "zz1$badfilter".to_string());
+        v.push("||zz2.com^$script,badfilter".to_string());
+        v.push("@@zz3|$badfilter".to_string());
+        variants.push(v);
+    }
     let mut y_mattered = false;
     for (vi, list_owned) in variants.iter().enumerate() {
     let list: Vec<&str> = list_owned.iter().map(|s| s.as_str()).collect();
@@ -242,7 +252,7 @@ fn check_badfilter_pair(y: (&str, &str), z: (&str, &str), reqs: &[Req], l: &mut 
             y_mattered = true;
         }
         if let Some(field) = ns::diff_verdict(&s.verdict, &got) {
-            let sig = if cancels { format!("c04.badfilter.not-cancelled{}.{}", ["", ".second-copy", ".other-spelling"][vi], field) } else { format!("c04.badfilter.wrongly-cancelled-or-matching.{}", field) };
+            let sig = if cancels { format!("c04.badfilter.not-cancelled{}.{}", ["", ".second-copy", ".other-spelling"][vi % plain.max(1)], field) } else { format!("c04.badfilter.wrongly-cancelled-or-matching.{}", field) };
             l.mismatch(Mismatch {
                 sig,
                 what: format!("list {:?}: oracle says {:?} {} {:?}; request ({}, {}, {}) reference {:?} engine {:?}", list, ztxt, if cancels { "disables" } else { "does not disable" }, ytxt, rq.url, rq.source, rq.ty, s.verdict, got),
